@@ -41,6 +41,8 @@ CODEC_RULE = ('real bincode (de)serialisation of every consensus and mempool mes
               'model encoders/decoders and the digest pre-images (SHA-512 recomputed by the harness); malformed stream: truncation, bit flips, corrupted length fields/enum tags/option tags, '
               'messages of the other component, random bytes, key strings of wrong length/alphabet/padding; non-trivial = every case; distinct = distinct byte strings')
 
+CORE_ANCHORS = ['consensus/src/core.rs', 'consensus/src/aggregator.rs', 'consensus/src/messages.rs', 'consensus/src/synchronizer.rs', 'consensus/src/mempool.rs', 'consensus/src/proposer.rs', 'consensus/src/leader.rs', 'consensus/src/config.rs']
+
 PROPS = {
     'C17': {
         'vo': ['QuorumDefs.vo', 'Quorum.vo', 'CorrComp.vo'],
@@ -102,8 +104,8 @@ PROPS = {
     'C11': {
         'vo': ['BatchMakerDefs.vo', 'CorrComp.vo', 'CorrBatch.vo'],
         'sites': ['g_batch_full', 'g_timer_seals', 'g_seal_index_guarded'],
-        'corr': [{'name': 'batchmaker', 'bin': 'comp', 'mode': 'batchmaker', 'quick': 120, 'thorough': 2000, 'agree': [1, 2], 'monitors': [3, 4, 5, 6, 7, 8]},
-                 {'name': 'batchmaker-bench', 'bin': 'comp', 'mode': 'batchmaker', 'features': 'bench', 'quick': 120, 'thorough': 2000, 'agree': [1, 2], 'monitors': [3, 4, 5, 6, 7, 8]}],
+        'corr': [{'name': 'batchmaker', 'bin': 'comp', 'mode': 'batchmaker', 'quick': 120, 'thorough': 2000, 'agree': [1, 2], 'monitors': [3, 4, 5, 6, 7, 8, 9, 10]},
+                 {'name': 'batchmaker-bench', 'bin': 'comp', 'mode': 'batchmaker', 'features': 'bench', 'quick': 120, 'thorough': 2000, 'agree': [1, 2], 'monitors': [3, 4, 5, 6, 7, 8, 9, 10]}],
         'rule': 'real BatchMaker + Processor (both builds: default and --features benchmark) with virtual time and the network tap: transaction/timer event sequences, '
                 'batch sizes 1, 2..9, 10..60, 100, transaction lengths 0, 1, batch_size-1, batch_size, batch_size+1, 9 and random, "sample" transactions starting with 0; '
                 'non-trivial = at least one batch sealed; distinct = distinct event sequences',
@@ -111,9 +113,10 @@ PROPS = {
                         'tokio timer and mpsc semantics'],
     },
     'C12': {
-        'vo': ['QuorumWaiterDefs.vo', 'QuorumDefs.vo', 'CorrComp.vo', 'CorrQW.vo'],
+        'vo': ['QuorumWaiterDefs.vo', 'QuorumDefs.vo', 'BatchMakerDefs.vo', 'CorrComp.vo', 'CorrQW.vo', 'CorrBatch.vo'],
         'sites': ['g_qw_threshold', 'g_quorum_mempool'],
-        'corr': [{'name': 'quorumwaiter', 'bin': 'comp', 'mode': 'quorumwaiter', 'quick': 150, 'thorough': 3000, 'agree': [1], 'monitors': [2]}],
+        'corr': [{'name': 'quorumwaiter', 'bin': 'comp', 'mode': 'quorumwaiter', 'quick': 150, 'thorough': 3000, 'agree': [1], 'monitors': [2]},
+                 {'name': 'batchmaker', 'bin': 'comp', 'mode': 'batchmaker', 'quick': 60, 'thorough': 1000, 'agree': [1], 'monitors': [10]}],
         'rule': 'real QuorumWaiter task: committees of 1..8 (equal and weighted incl. zero stakes), 1..3 queued batches, acknowledgement orders = random permutations of the other members plus '
                 'sometimes an authority unknown to the committee, handlers handed over in a different random order; non-trivial = committee of more than one; distinct = distinct (stakes, orders)',
         'assumptions': ['an acknowledgement means the peer stored the batch (the peer\'s honesty, not this node\'s code)', 'FuturesUnordered yields handlers in completion order'],
@@ -172,3 +175,53 @@ PROPS = {
                                      'no verified certificate has round 2^64-1 (debug-build overflow of round + 1)'],
     },
 }
+PROPS['C06'] = {
+    'vo': NODE_VO + ['LivenessDefs.vo'],
+    'sites': ['g_advance_guard', 'g_advance_next', 'g_update_high_qc', 'g_timeout_stale', 'g_vote_stale', 'g_tcm_threshold', 'g_qcm_threshold', 'g_safety_rule_1', 'g_safety_rule_2', 'g_can_extend', 'g_can_extend_hq', 'g_two_chain', 'g_quorum_consensus'],
+    'corr': [{'name': 'runloop', 'bin': 'runloop', 'mode': 'smoke', 'emit': 'runloop', 'quick': 24, 'thorough': 200, 'agree': [], 'monitors': list(range(1, 19)), 'timeout': 600},
+             step_run([NET, PROP, STATE, RES], [M_C10, M_C19], quick=120)],
+    'rule': 'run-loop smoke: the REAL Core::spawn (select! loop and Timer) on a paused clock, committee of 4, random node and timeout delay, four scenarios per case (idle timeouts re-armed; proposal then timer reset on round change; '
+            'TC assembled from three timeouts; invalid messages do not stop the loop); plus ' + STEP_RULE,
+    'assumptions': STEP_ASSUME + ['PARTIAL: only the enabling side of liveness is a theorem; nothing involving real time, message-delay bounds versus the timeout, scheduler fairness or loss on best-effort links is proved (the model has no clock)'],
+    'anchors': CORE_ANCHORS + ['consensus/src/timer.rs'],
+}
+PROPS['C13'] = {
+    'vo': NODE_VO + ['MempoolSyncDefs.vo', 'PipelineDefs.vo', 'ReceiveDefs.vo', 'CorrPipeline.vo', 'BatchMakerDefs.vo', 'QuorumWaiterDefs.vo'],
+    'sites': ['g_batch_full', 'g_timer_seals', 'g_qw_threshold'],
+    'corr': [{'name': 'msync', 'bin': 'pipeline', 'mode': 'msync', 'emit': 'msync', 'quick': 60, 'thorough': 1000, 'agree': [1, 2], 'monitors': [3, 4], 'timeout': 600},
+             {'name': 'mhelper', 'bin': 'pipeline', 'mode': 'mhelper', 'emit': 'mhelper', 'quick': 60, 'thorough': 1000, 'agree': [1], 'monitors': [2, 3, 4, 5], 'timeout': 600},
+             {'name': 'e2e', 'bin': 'pipeline', 'mode': 'e2e', 'emit': 'e2e', 'quick': 40, 'thorough': 400, 'agree': [1], 'monitors': [2, 3, 4, 5, 6, 7, 8, 9], 'timeout': 900}],
+    'rule': 'msync: the REAL mempool Synchronizer task against its model on seeded Synchronize/arrival/Cleanup/retry-tick sequences; mhelper: the REAL mempool Helper on stored batches, consensus blocks, junk, unknown digests and origins; '
+            'e2e: a REAL Mempool::spawn on loopback TCP + MempoolDriver/PayloadWaiter on one store with the tap standing for the peers: transactions -> sealed batch -> quorum -> stored -> announced; block with a missing batch -> Synchronize -> BatchRequest -> batch arrives -> block released',
+    'assumptions': ['PARTIAL: that ALL honest nodes commit under arbitrary load and delays is liveness (see C06) and is not proved', 'the three synchronizer expressions (gc skip/keep, retry due) are hand-written from the source (quoted), not regenerated',
+                    'one real node is driven; two real nodes wired together are covered only by composition in Coq (c13_sync_completes)', 'SHA-512 not modelled'],
+    'anchors': ['mempool/src/', 'consensus/src/mempool.rs', 'consensus/src/proposer.rs'],
+}
+
+def catchup_layout(case, v):
+    # [all; step_verdict A (1..19, 9 = first differing step); step_verdict B (20..38, 28 = first differing step); monitors 39..47; 48 = count]
+    agree = [i for i in range(1, 9)] + [i for i in range(20, 28)] + [44, 45, 46]
+    return (agree, [39, 40, 41, 42, 47])
+
+
+PROPS['C07'] = {
+    'vo': NODE_VO + ['SyncDefs.vo', 'ReceiveDefs.vo', 'WireDefs.vo', 'CorrCatchup.vo'],
+    'sites': [],
+    'corr': [{'name': 'catchup', 'bin': 'catchup', 'mode': 'run', 'emit': 'catchup', 'quick': 40, 'thorough': 600, 'layout': catchup_layout, 'timeout': 600, 'coq_timeout': 900},
+             {'name': 'retry', 'bin': 'catchup', 'mode': 'retry', 'emit': 'catchup_retry', 'quick': 30, 'thorough': 300, 'agree': [], 'monitors': [1, 2, 3, 4, 5, 6], 'timeout': 600}],
+    'rule': 'catch-up: a valid chain of 3..12 blocks with TC-justified gaps delivered in order to a fresh REAL node A (reference) and in a lagging order to a fresh REAL node B (first j blocks, then the newest; every SyncRequest B emits is answered by the REAL '
+            'Helper over A\'s store; loop-back pool served in random order); retry: a REAL Synchronizer with sync_retry_delay 0 on a paused clock',
+    'assumptions': ['PARTIAL: that peers are reachable and answer is environment; the model has no retry timer (retry is covered by the smoke test only); "same committed sequence" for unbounded gaps is proved at the store/synchronizer layer and monitored on real runs, the commit part follows from C02/C05'],
+    'anchors': ['consensus/src/synchronizer.rs', 'consensus/src/helper.rs', 'consensus/src/core.rs'],
+}
+
+for _p in ('C01', 'C02', 'C03', 'C04', 'C05', 'C08', 'C09', 'C10', 'C15', 'C19'):
+    PROPS[_p]['anchors'] = CORE_ANCHORS
+PROPS['C11']['anchors'] = ['mempool/src/batch_maker.rs', 'mempool/src/processor.rs']
+PROPS['C12']['anchors'] = ['mempool/src/quorum_waiter.rs', 'mempool/src/config.rs']
+PROPS['C14']['anchors'] = ['network/src/reliable_sender.rs', 'network/src/receiver.rs']
+PROPS['C15']['anchors'] = CORE_ANCHORS + ['consensus/src/helper.rs', 'consensus/src/consensus.rs', 'mempool/src/', 'network/src/receiver.rs', 'crypto/src/lib.rs']
+PROPS['C16']['anchors'] = ['store/src/lib.rs']
+PROPS['C17']['anchors'] = ['consensus/src/config.rs', 'mempool/src/config.rs']
+PROPS['C18']['anchors'] = ['crypto/src/lib.rs']
+PROPS['C20']['anchors'] = ['consensus/src/messages.rs', 'crypto/src/lib.rs', 'consensus/src/consensus.rs', 'mempool/src/mempool.rs']
